@@ -113,7 +113,7 @@ func runOptFamily(c *runCtx) error {
 				hangErr = fmt.Errorf("case %d: hang: wait", k)
 			}
 		}
-		switch kind := r.intn(12); kind {
+		switch kind := r.intn(13); kind {
 		case 0, 1, 2: // what a finished bar shows
 			name = "final"
 			which := r.intn(5)  // 0 OnComplete(msg) 1 ClearOnComplete 2 OnAbort(msg) 3 ClearOnAbort 4 both messages
@@ -516,6 +516,45 @@ func runOptFamily(c *runCtx) error {
 				b.Abort(false)
 			}
 			waitP(o.p)
+		case 11: // text written through a refreshing container that has no bar (never had one, or not yet) is emitted all the
+			// same: Wait / Shutdown / the cancelled context draw the closing frame, and the text is in it, once and in order
+			name = "textonly"
+			nl := 1 + r.intn(4)
+			ending := r.intn(3) // 0 Wait 1 Shutdown 2 cancel + Wait
+			cases.WriteString(fmt.Sprintf("Y %d %d %d\n", k, nl, ending))
+			ctx, cancel := context.WithCancel(context.Background())
+			var buf bytes.Buffer
+			var mu sync.Mutex
+			w := writerFunc(func(p []byte) (int, error) { mu.Lock(); defer mu.Unlock(); return buf.Write(p) })
+			p := mpb.NewWithContext(ctx, mpb.WithOutput(w), mpb.WithAutoRefresh(), mpb.WithRefreshRate(time.Hour), mpb.WithWidth(40))
+			var want strings.Builder
+			for i := 0; i < nl; i++ {
+				line := fmt.Sprintf("<text %d.%d>\n", k, i)
+				n, err := io.WriteString(p, line)
+				if err != nil || n != len(line) {
+					fail("Write on a live container returned (%d, %v) for %d bytes", n, err, len(line))
+				}
+				want.WriteString(line)
+			}
+			switch ending {
+			case 0:
+				waitP(p)
+			case 1:
+				if !waitTimeout(p.Shutdown) {
+					hangErr = fmt.Errorf("case %d: hang: shutdown", k)
+				}
+			default:
+				cancel()
+				waitP(p)
+			}
+			cancel()
+			mu.Lock()
+			out := csiRe.ReplaceAllString(buf.String(), "")
+			mu.Unlock()
+			if out != want.String() {
+				fail("a container without bars was given %q through Write; after %s the output holds %q", want.String(),
+					[]string{"Wait", "Shutdown", "cancel and Wait"}[ending], out)
+			}
 		default: // WithWaitGroup: Wait first waits for the user's group
 			name = "waitgroup"
 			var wg sync.WaitGroup
